@@ -6,6 +6,7 @@ From VQ Require Import Num Model.Vec Model.Core Proofs.CoreNearest Glue.CoreGlue
 From VQ Require Import Model.Einops Model.Layout Glue.EinopsGlueBase Glue.EinopsGlueHeads.
 From VQ Require Import Model.Machine Model.History Proofs.HistoryProofs.
 From VQ Require Import Glue.Pin_fp_C01.
+From VQ Require Import Model.Memo Proofs.MemoProofs Glue.Pin_p_simvq_codebook.
 Import ListNotations.
 Open Scope R_scope.
 
@@ -278,3 +279,22 @@ Theorem C01_tie_source_footprint :
   fp_C01.fp_C01 = pinned_fp_C01.
 Proof. exact (@Pin_fp_C01.pin_fp_C01). Qed.
 Print Assumptions C01_tie_source_footprint.
+
+Theorem C01_derived_codebook_calls_use_current_parameters :
+  forall (P C : Type) (f : P -> C) (h : list (mop P)) (s : mstate P C),
+       Forall (fun pc : P * C => snd pc = f (fst pc)) (run P C (step_plain P C f) s h).
+Proof. exact (@MemoProofs.plain_calls_use_current). Qed.
+Print Assumptions C01_derived_codebook_calls_use_current_parameters.
+
+Theorem C01_memoised_derived_codebook_refuted :
+  forall (P C : Type) (f : P -> C) (p p' : P),
+       f p <> f p' ->
+       exists (h : list (mop P)) (s : mstate P C),
+         ~ Forall (fun pc : P * C => snd pc = f (fst pc)) (run P C (step_memo P C f) s h).
+Proof. exact (@MemoProofs.memo_refuted). Qed.
+Print Assumptions C01_memoised_derived_codebook_refuted.
+
+Theorem C01_tie_simvq_codebook_derivation_pinned :
+  p_simvq_codebook.p_simvq_codebook = pinned_p_simvq_codebook.
+Proof. exact (@Pin_p_simvq_codebook.pin_p_simvq_codebook). Qed.
+Print Assumptions C01_tie_simvq_codebook_derivation_pinned.
